@@ -20,6 +20,37 @@ CONSTANTS = {
         # header copy: `let to_read = buffer.len().min(offset_buf.len());` over `&mut buf[*read as usize..]`
         ("IPC_HEADER_COPY_FROM", "arrow-ipc/src/reader/stream.rs",
          r"let offset_buf = &mut buf\[\*read as usize\.\.\];\s*let to_read = buffer\.len\(\)\.min\(offset_buf\.len\(\)\);\s*offset_buf\[\.\.to_read\]\.copy_from_slice\(&buffer\[\.\.to_read\]\);\s*\*read \+= to_read as u8;\s*buffer\.advance\(to_read\);\s*if \*read == \d+ \{\s*if !\*continuation && buf == &CONTINUATION_MARKER \{\s*\*continuation = true;\s*\*read = (\d+);", "int"),
+        # ---- shape items (audit): the value is incidental, the regex pins the guard / statement order
+        ("IPC_FINISH_OK_READ", "arrow-ipc/src/reader/stream.rs",
+         r"DecoderState::Finished\s*\|\s*DecoderState::Header\s*\{\s*read:\s*(\d+),\s*continuation:\s*false,\s*\.\.\s*\}\s*=>\s*Ok\(\(\)\)", "int"),
+        ("IPC_EOS_SIZE", "arrow-ipc/src/reader/stream.rs",
+         r"let size = u32::from_le_bytes\(\*buf\);\s*if size == (\d+) \{\s*self\.state = DecoderState::Finished;\s*continue;\s*\}\s*self\.state = DecoderState::Message \{ size \};", "int"),
+        ("JSON_NUMBER_CLOSE", "arrow-json/src/reader/tape.rs",
+         r"!matches!\(b, b'0'\.\.=b'9' \| b'-' \| b'\+' \| b'\.' \| b'e' \| b'E'\)\s*\}\);\s*self\.bytes\.extend_from_slice\(s\);\s*if !iter\.is_empty\(\) \{\s*self\.stack\.pop\(\);\s*let idx = self\.offsets\.len\(\) - (\d+);\s*self\.elements\.push\(TapeElement::Number", "int"),
+        ("JSON_BATCH_STOP", "arrow-json/src/reader/tape.rs",
+         r"None => \{\s*iter\.skip_whitespace\(\);\s*if self\.cur_row >= self\.batch_size \{\s*break;\s*\}\s*match iter\.peek\(\) \{\s*Some\(b'\['\) if self\.flatten_top_level_arrays => \{[^}]*\}\s*Some\(_\) => \{\s*// Start of row\s*self\.cur_row \+= (\d+);\s*self\.stack\.push\(DecoderState::Value\);", "int"),
+        ("JSON_STRING_SCAN", "arrow-json/src/reader/tape.rs",
+         r"let s = iter\.skip_chrs\(b'\\\\', b'\"'\);\s*self\.bytes\.extend_from_slice\(s\);\s*match next!\(iter\) \{\s*b'\\\\' => self\.stack\.push\(DecoderState::Escape\),\s*b'\"' => \{\s*let idx = self\.offsets\.len\(\) - (\d+);", "int"),
+        ("JSON_UNICODE_HIGH_LAST", "arrow-json/src/reader/tape.rs",
+         r"0\.\.=(\d+) => \*high = \(\*high << 4\) \| parse_hex\(next!\(iter\)\)\? as u16,\s*4 => \{\s*if let Some\(c\) = char::from_u32\(\*high as u32\) \{\s*write_char\(c, &mut self\.bytes\);\s*self\.stack\.pop\(\);\s*break;", "int"),
+        ("JSON_UNICODE_LOW_LAST", "arrow-json/src/reader/tape.rs",
+         r"6\.\.=(\d+) => \*low = \(\*low << 4\) \| parse_hex\(next!\(iter\)\)\? as u16,\s*_ => \{\s*let c = char_from_surrogate_pair\(\*low, \*high\)\?;", "int"),
+        ("JSON_LITERAL_RESUME", "arrow-json/src/reader/tape.rs",
+         r"let expected = bytes\.iter\(\)\.skip\(\*idx as usize\)\.copied\(\);\s*for \(expected, b\) in expected\.zip\(&mut iter\) \{\s*match b == expected \{\s*true => \*idx \+= (\d+),", "int"),
+        ("CSV_RECORD_DONE", "arrow-csv/src/reader/records.rs",
+         r"read \+= (\d+);\s*self\.current_field = 0;\s*self\.line_number \+= 1;\s*self\.num_rows \+= 1;\s*if read == to_read \{[^}]*return Ok\(\(read, input_offset\)\);\s*\}\s*if input\.len\(\) == input_offset \{", "int"),
+        ("CSV_FLUSH_PARTIAL_GUARD", "arrow-csv/src/reader/records.rs",
+         r"if self\.current_field != (\d+) \{\s*return Err\(ArrowError::CsvError\(\s*\"Cannot flush part way through record\"", "int"),
+        ("CSV_TO_READ", "arrow-csv/src/reader/mod.rs",
+         r"if self\.to_skip != (\d+) \{[\s\S]{0,1200}?let to_read = self\.batch_size\.min\(self\.end - self\.line_number\) - self\.record_decoder\.len\(\);\s*let \(_, bytes\) = self\.record_decoder\.decode\(buf, to_read\)\?;", "int"),
+        ("CSV_BUFREADER_STOP", "arrow-csv/src/reader/mod.rs",
+         r"let decoded = self\.decoder\.decode\(buf\)\?;\s*self\.reader\.consume\(decoded\);[\s\S]{0,400}?if decoded == (\d+) \|\| self\.decoder\.capacity\(\) == 0 \{\s*break;", "int"),
+        ("AVRO_DATA_COPY", "arrow-avro/src/reader/block.rs",
+         r"let to_read = self\.bytes_remaining\.min\(buf\.len\(\)\);\s*self\.in_progress\.data\.extend_from_slice\(&buf\[\.\.to_read\]\);\s*buf = &buf\[to_read\.\.\];\s*self\.bytes_remaining -= to_read;\s*if self\.bytes_remaining == (\d+) \{", "int"),
+        ("AVRO_SYNC_COPY", "arrow-avro/src/reader/block.rs",
+         r"let to_decode = buf\.len\(\)\.min\(self\.bytes_remaining\);[\s\S]{0,200}?self\.in_progress\.sync\[offset\.\.offset \+ to_decode\]\s*\.copy_from_slice\(&buf\[\.\.to_decode\]\);\s*self\.bytes_remaining -= to_decode;\s*buf = &buf\[to_decode\.\.\];\s*if self\.bytes_remaining == (\d+) \{", "int"),
+        ("VLQ_ZIGZAG_SHIFT", "arrow-avro/src/reader/vlq.rs",
+         r"return Ok\(Some\(\(val >> (\d+)\) as i64 \^ -\(\(val & 1\) as i64\)\)\);", "int"),
         # Avro block: 16 byte sync marker
         ("AVRO_SYNC_LEN", "arrow-avro/src/reader/block.rs", r"pub\s+sync:\s*\[u8;\s*(\d+)\]", "int"),
         ("AVRO_SYNC_REMAINING", "arrow-avro/src/reader/block.rs", r"if\s+self\.bytes_remaining\s*==\s*0\s*\{\s*self\.bytes_remaining\s*=\s*(\d+);", "int"),
